@@ -90,6 +90,7 @@ func regexLanguage(re *syntax.Regexp, bound int) ([]string, bool) {
 
 func runC17(c *Ctx, r *Report) {
 	l := c.L
+	defer c17r11(c, r)
 	po := l.Fn("fzf", "ParseOptions")
 	pos := l.Fn("fzf", "parseOptions")
 	if po == nil || pos == nil {
@@ -503,17 +504,28 @@ func runC17(c *Ctx, r *Report) {
 			case *ssa.Call:
 				if calleeName(x.Common()) == "strings.Repeat" {
 					s, isc := constString(x.Call.Args[0])
-					cntOK := false
+					cntOK, runeCount := false, false
 					for v := range backwardSlice(x.Call.Args[1], nil, nil) {
 						if c2, ok := v.(*ssa.Call); ok {
 							nm := calleeName(c2.Common())
 							if nm == "builtin.len" || strings.HasSuffix(nm, "FindStringIndex") {
 								cntOK = true
 							}
+							// a count of characters is not a count of bytes
+							if nm == "builtin.len" {
+								if sl, ok := c2.Call.Args[0].Type().Underlying().(*types.Slice); ok {
+									if bt, ok := sl.Elem().Underlying().(*types.Basic); ok && bt.Kind() == types.Int32 {
+										runeCount = true
+									}
+								}
+							}
+							if strings.HasPrefix(nm, "unicode/utf8.RuneCount") {
+								runeCount = true
+							}
 						}
 					}
-					okPiece = isc && len(s) == 1 && cntOK
-					why = "Repeat of a multi-byte string or with an unrelated count"
+					okPiece = isc && len(s) == 1 && cntOK && !runeCount
+					why = "Repeat of a multi-byte string, or with a count that is not a byte length/offset of the input (e.g. a character count)"
 				} else if cal := x.Common().StaticCallee(); cal != nil && cal.Blocks != nil && isModulePkg(cal.Pkg.Pkg) && len(cal.Params) == 1 && isInput(x.Call.Args[0]) {
 					// a local helper: accepted when each of its returns is Repeat(<1 byte>, len(param))
 					all := true
